@@ -59,6 +59,41 @@ fn rank_setup(s: &mut S, ch: &str, users: usize, setup: &mut Vec<(String, String
     }
 }
 
+// Configuration variety shared by the model-based checks: in about a third of the cases the
+// server also has default user modes, a channel from the configuration (rank lists that overlap
+// and name members, connected non-members and a nick that never connects) and a join quota.
+// None of it is the subject of the check that uses it; all of it must leave the subject alone.
+pub fn enrich(mut b: Built, s: &mut S) -> Built {
+    if !s.chance(30) {
+        return b;
+    }
+    if b.cfg.default_modes.is_empty() && s.chance(50) {
+        b.cfg.default_modes = ["i", "w", "iw", "r", "rw"][s.pick(5)].to_string();
+    }
+    if b.cfg.channels.is_empty() && s.chance(60) {
+        let mut ch = ChanSpec { name: "&cfg".into(), ..Default::default() };
+        if s.chance(50) {
+            ch.topic = Some("from the file".into());
+        }
+        ch.flags = ["", "n", "nt", "m", "t"][s.pick(5)].to_string();
+        ch.founders = vec!["n3".into()];
+        ch.operators = vec!["n1".into(), "ghost".into(), "n3".into()];
+        ch.half_operators = vec!["n2".into()];
+        ch.voices = vec!["n2".into(), "n1".into(), "phantom".into()];
+        b.cfg.channels.push(ch);
+        b.prof.chans.push("&cfg".into());
+        for i in 0..b.prelude_users {
+            if s.chance(50) {
+                b.setup.push((format!("n{}", i), "JOIN &cfg".into()));
+            }
+        }
+    }
+    if b.cfg.max_joins.is_none() && s.chance(20) {
+        b.cfg.max_joins = Some(3 + s.pick(3));
+    }
+    b
+}
+
 // ------------------------------------------------------------------------------------- C01
 fn c01_build(cfg: &[u16]) -> Built {
     let mut s = S::new(cfg);
@@ -216,7 +251,7 @@ fn c07_build(cfg: &[u16]) -> Built {
         (K::Kick, 4),
         (K::CapPost, 2),
     ]);
-    Built { cfg: c, prof, prelude_users: users, setup }
+    enrich(Built { cfg: c, prof, prelude_users: users, setup }, &mut s)
 }
 
 fn c07_owns(d: &Disc, out: &StepOut, _t: &Trace) -> bool {
@@ -279,7 +314,7 @@ fn c08_build(cfg: &[u16]) -> Built {
         (K::NewUser, 3),
         (K::CapPost, 2),
     ]);
-    Built { cfg: CfgSpec::default(), prof, prelude_users: users, setup }
+    enrich(Built { cfg: CfgSpec::default(), prof, prelude_users: users, setup }, &mut s)
 }
 
 fn c08_owns(d: &Disc, out: &StepOut, _t: &Trace) -> bool {
@@ -413,7 +448,7 @@ fn c09_build(cfg: &[u16]) -> Built {
         (K::Away, 3),
         (K::CapPost, 2),
     ]);
-    Built { cfg: CfgSpec::default(), prof, prelude_users: users, setup }
+    enrich(Built { cfg: CfgSpec::default(), prof, prelude_users: users, setup }, &mut s)
 }
 
 fn c09_owns(d: &Disc, out: &StepOut, _t: &Trace) -> bool {
@@ -495,7 +530,7 @@ fn c10_build(cfg: &[u16]) -> Built {
         (K::NewUser, 3),
         (K::CapPost, 3),
     ]);
-    Built { cfg: CfgSpec::default(), prof, prelude_users: users, setup }
+    enrich(Built { cfg: CfgSpec::default(), prof, prelude_users: users, setup }, &mut s)
 }
 
 fn c10_owns(d: &Disc, out: &StepOut, _t: &Trace) -> bool {
@@ -735,7 +770,7 @@ fn c15_build(cfg: &[u16]) -> Built {
             setup.push((format!("n{}", i), "OPER op0 operpw0".into()));
         }
     }
-    Built { cfg: c, prof, prelude_users: users, setup }
+    enrich(Built { cfg: c, prof, prelude_users: users, setup }, &mut s)
 }
 
 fn c15_owns(d: &Disc, out: &StepOut, t: &Trace) -> bool {
@@ -1062,7 +1097,7 @@ fn c19_build(cfg: &[u16]) -> Built {
     ]);
     oper_cfg(&mut s, &mut c, &mut prof);
     c.default_modes = ["", "", "i", "o", "O", "io", "iw", "oO"][s.pick(8)].to_string();
-    Built { cfg: c, prof, prelude_users: users, setup: vec![] }
+    enrich(Built { cfg: c, prof, prelude_users: users, setup: vec![] }, &mut s)
 }
 
 fn c19_owns(d: &Disc, _out: &StepOut, _t: &Trace) -> bool {
